@@ -30,6 +30,25 @@ package exporter
 //@   maypanic
 //@   assert @store:F.openapi3.Parameter.Required [parameter-required-iff-not-optional] stored == !paramItem.Type.Optional
 //@   assert @call:github.com/getkin/kin-openapi/openapi3.(*RequestBody).WithRequired [body-required-iff-not-optional] arg1 == !paramItem.Type.Optional
+//@   ghostclear @iter:3 bodyset
+//@   ghostclear @iter:3 paramadded
+//@   ghostset @store:F.openapi3.Operation.RequestBody bodyset
+//@   ghostset @call:github.com/getkin/kin-openapi/openapi3.(*Operation).AddParameter paramadded
+//@   loop 3 step [body-parameter-becomes-the-request-body] paramItem.In == "body" ==> ghost("bodyset") && !ghost("paramadded")
+//@   ghostclear @iter:3 located
+//@   ghostset @call:github.com/getkin/kin-openapi/openapi3.NewHeaderParameter located
+//@   ghostset @call:github.com/getkin/kin-openapi/openapi3.NewPathParameter located
+//@   ghostset @call:github.com/getkin/kin-openapi/openapi3.NewQueryParameter located
+//@   loop 3 step [located-parameter-is-added-and-nothing-else] ghost("located") == ghost("paramadded") && (ghost("located") ==> !ghost("bodyset"))
+//@   ghostclear @iter:1 schema
+//@   ghostset @mapupdate:openapi3.Schemas schema
+//@   loop 1 step [every-type-becomes-a-component-schema] ghost("schema")
+//@   ghostclear @iter:4 response
+//@   ghostset @call:github.com/getkin/kin-openapi/openapi3.(*Operation).AddResponse response
+//@   loop 4 step [every-response-is-added] ghost("response")
+//@   ghostclear @iter:2 operation
+//@   ghostset @call:github.com/getkin/kin-openapi/openapi3.(*T).AddOperation operation
+//@   loop 2 step [every-endpoint-becomes-an-operation] ghost("operation")
 
 // Swagger 2 definitions: every member of a tuple / relation becomes a property of the type's schema under its own
 // name, and a set / sequence becomes an array that has an items schema.
@@ -43,3 +62,14 @@ package exporter
 //@   maypanic
 //@   requires schema != nil
 //@   ensures [array-has-an-items-schema] schema.Items != nil && schema.Items.Schema != nil
+
+// kin-openapi constructors return a new, non-nil object (assumption about the library).
+//@ func github.com/getkin/kin-openapi/openapi3.NewHeaderParameter
+//@   trusted
+//@   fresh
+//@ func github.com/getkin/kin-openapi/openapi3.NewPathParameter
+//@   trusted
+//@   fresh
+//@ func github.com/getkin/kin-openapi/openapi3.NewQueryParameter
+//@   trusted
+//@   fresh
